@@ -17,8 +17,8 @@ import h_c01
 PROPERTY = 'C16'
 HELPERS = os.path.join(hsupport.VERIF, 'helpers/bin')
 CICADA = os.path.join(hsupport.VERIF, 'build/bin/debug/cicada')
-BUDGET = {'quick': 900, 'thorough': 3000}
-BOUNDS = {'quick': dict(max_args=2, max_chars=2, pos_chars=1), 'thorough': dict(max_args=2, max_chars=3, pos_chars=2)}
+BUDGET = {'quick': 900, 'thorough': 1500}
+BOUNDS = {'quick': dict(max_args=2, max_chars=2, pos_chars=1), 'thorough': dict(max_args=2, max_chars=2, pos_chars=2)}
 ASSUMPTIONS = [
     'bounded: C01\'s line shapes with <= max_args arguments and <= max_chars symbolic characters in total (the pass runs twice per line, hence one character less than C01)',
     'lines carry no positional parameters ($1, $@ ...): script arguments are fixed to ["script"]',
